@@ -50,7 +50,7 @@ def verify_start_summary(ctx, prog, rule="SUM.start"):
                nontrivial=True)
         classes.add(c)
     need = {"fail", "child", "ok"}
-    if not need <= classes:
+    if not need <= classes and None not in classes:
         raise AnalysisBroken("process_start summary: outcome classes %s never produced" % sorted(need - classes))
     return res, F, I, pcell
 
